@@ -171,4 +171,6 @@ def fp_to_int_check(a, r, p_lost, invalid):
         bad.append('value')
     if p_lost != int(Fraction(t) != x):
         bad.append('p_lost')
+    if invalid != 0:
+        bad.append('invalid_flag_on_a_convertible_value')       # "flags magnitudes of 2**31 or more as invalid": those, not others
     return bad
